@@ -29,6 +29,9 @@
                   another share number, a body of another version): accepted by the
                   servermap, rejected by Retrieve._validate_block
      "privbad"    only the encrypted private key is damaged
+     "chainbad"   only the share-hash chain is damaged: Retrieve fetches the chain of a share only
+                  while its share-hash tree still lacks nodes, so the damage is noticed or not
+                  depending on which shares were validated before (never a wrong plaintext)
      "offsbad"    only the (unsigned) offset table is damaged so that blocks are read
                   from the wrong place: body does not validate
    Shares of a version whose signer is "other" are rejected whatever their class:
@@ -44,9 +47,10 @@ Shnums == 0..(N - 1)
 Absent == [v |-> 0, cls |-> "absent"]
 Present(sh) == sh.cls # "absent"
 Signed(V, sh) == Present(sh) /\ sh.v \in 1..Len(V) /\ V[sh.v].signer = "owner"
-MustAccept(V, sh) == Signed(V, sh) /\ sh.cls \in {"intact", "bodybad", "privbad"}
-MayAccept(V, sh) == Signed(V, sh) /\ sh.cls \in {"intact", "bodybad", "privbad", "softbad", "offsbad"}
+MustAccept(V, sh) == Signed(V, sh) /\ sh.cls \in {"intact", "bodybad", "privbad", "chainbad"}
+MayAccept(V, sh) == Signed(V, sh) /\ sh.cls \in {"intact", "bodybad", "privbad", "chainbad", "softbad", "offsbad"}
 BodyValid(sh) == sh.cls \in {"intact", "softbad", "privbad"}
+BodyMaybe(sh) == BodyValid(sh) \/ sh.cls = "chainbad"
 
 OwnerVersions(V) == {v \in 1..Len(V) : V[v].signer = "owner"}
 Rank(V, v) == V[v].seq * 1000 + V[v].rh
@@ -91,6 +95,7 @@ ReadWantsMore(V, M, completed) ==
 (* ---- Retrieve ------------------------------------------------------------- *)
 GoodShnums(L, M, v) == {sh \in Shnums : \E s \in DOMAIN M : M[s][sh] = v /\ BodyValid(L[s][sh])}
 RetrieveOK(L, M, v) == v # 0 /\ Cardinality(GoodShnums(L, M, v)) >= K
+RetrieveMaybe(L, M, v) == v # 0 /\ Cardinality({sh \in Shnums : \E s \in DOMAIN M : M[s][sh] = v /\ BodyMaybe(L[s][sh])}) >= K
 \* version delivered by download_best_version on map M (0 = error)
 ReadVersion(V, L, M) == IF RetrieveOK(L, M, Best(V, M)) THEN Best(V, M) ELSE 0
 
@@ -102,12 +107,16 @@ HealthyMap(V, M) ==
 RemoveEntries(M, B) == [s \in DOMAIN M |-> [sh \in Shnums |-> IF <<s, sh>> \in B THEN 0 ELSE M[s][sh]]]
 EntriesOf(M, v) == {p \in (DOMAIN M) \X Shnums : M[p[1]][p[2]] = v}
 \* verify=True: every share of the best version is fetched and validated; the bad ones leave the map
-MustFlag(L, M, v) == {p \in EntriesOf(M, v) : ~BodyValid(L[p[1]][p[2]])}
+MustFlag(L, M, v) == {p \in EntriesOf(M, v) : ~BodyMaybe(L[p[1]][p[2]])}
 MayFlag(L, M, v) == {p \in EntriesOf(M, v) : ~BodyValid(L[p[1]][p[2]]) \/ L[p[1]][p[2]].cls = "privbad"}
-CheckVerdicts(V, L, M, verify) ==
-  IF ~verify \/ Best(V, M) = 0 THEN {HealthyMap(V, M)}
-  ELSE {HealthyMap(V, RemoveEntries(M, B)) :
-          B \in {X \in SUBSET MayFlag(L, M, Best(V, M)) : MustFlag(L, M, Best(V, M)) \subseteq X}}
+FlagSets(V, L, M, verify) ==
+  IF ~verify \/ Best(V, M) = 0 THEN {{}}
+  ELSE {X \in SUBSET MayFlag(L, M, Best(V, M)) : MustFlag(L, M, Best(V, M)) \subseteq X}
+\* possible (healthy, recoverable) answers of check(verify)
+CheckOutcomes(V, L, M, verify) ==
+  {[healthy |-> HealthyMap(V, RemoveEntries(M, B)), recoverable |-> (Recoverable(RemoveEntries(M, B)) # {})] :
+     B \in FlagSets(V, L, M, verify)}
+CheckVerdicts(V, L, M, verify) == {o.healthy : o \in CheckOutcomes(V, L, M, verify)}
 
 (* ---- Repairer._got_full_servermap ------------------------------------------ *)
 RepairDecision(V, M, force) ==
